@@ -267,7 +267,10 @@ def main():
         results = pool.map(check_program, tasks, chunksize=1)
     wall = time.time() - t0
     viol = [(r["program"], r["U"], v) for r in results for v in r["violations"]]
-    inconc = [r for r in results if r["status"] != "ok"]
+    # the repository's own (large) theories are an extra of the thorough tier: a solver timeout on one of them is recorded as
+    # undecided (nothing is claimed for that theory), it does not make the check inconclusive
+    undecided = [r for r in results if r["status"] != "ok" and progs.get(r["program"], {}).get("kind") == "repo" and "timeout" in r.get("reason", "")]
+    inconc = [r for r in results if r["status"] != "ok" and r not in undecided]
     replay = None
     if viol:
         os.makedirs(os.path.join(P.VERIF, "evidence", "replays"), exist_ok=True)
@@ -289,6 +292,7 @@ def main():
         "bounds": {"universe": sorted(set(t["U"] for t in tasks)), "tables": "arbitrary disjoint new/old contents of every relation"},
         "functions_encoded": "every sub-rule function of every rule module of the generated code (real text, parsed on this run)",
         "program_names": sorted(progs),
+        "undecided_within_budget (nothing claimed)": sorted(set("%s U=%d" % (r["program"], r["U"]) for r in undecided)),
         "inconclusive": [{k: r.get(k) for k in ("program", "U", "reason")} for r in inconc][:10],
         "explanation": __doc__,
     }
